@@ -14,7 +14,7 @@ WORDS = ["alpha", "beta", "gamma", "delta", "Seite", "öffnen", "文字", "x", "
 CHECKED = {
     "properties": [("%S and %S", "%S und %S", "%d und"), ("%1$S of %2$S", "%2$S von %1$S", "%3$S"), ("size %d", "Größe %d", "Größe %S %S")],
     "dtd": [("plain <b>bold</b>", "fett <b>b</b>", "a & b"), ("see &brandShortName;", "siehe &brandShortName;", "<b>unclosed"),
-            ("10em", "12em", "zwölf")],
+            ("10em", "12em", "zwölf"), ("20em", "22em", "a & b")],
     "ini": [],
     "inc": [],
     "ftl": [("{ $n } items\n    .title = T", "{ $n } Dinge\n    .title = T", "{ $n } Dinge"),
@@ -173,6 +173,12 @@ def derive_l10n(fmt, recs, kinds, rng, allow_break=True, allow_junk=True, clean=
 
 def mutate_raw(text, rng, n=1):
     """raw character mutations"""
+    if rng.random() < 0.15:
+        # a backslash at the end of a line or of the file
+        lines = text.split("\n")
+        i = rng.randrange(len(lines))
+        lines[i] += "\\" * rng.randrange(1, 3)
+        return "\n".join(lines)
     chars = list(text)
     alphabet = ['"', "'", "\\", "<", ">", "&", "=", "#", "\n", " ", "%", "{", "}", "�", ";", "-", "!", ":", "x"]
     for _ in range(n):
